@@ -268,6 +268,10 @@ func c04Cell(c *hx.Ctx, r *hx.RNG, idx int64) {
 			c.Violate("missing-ErrNaN", fmt.Sprintf("%s shape %s: invalid operation did not panic, receiver %s", k.desc(true), shape, got), "")
 		case !pi.IsNaN:
 			c.Violate("wrong-panic", fmt.Sprintf("%s shape %s: invalid operation panicked with %s %q, not ErrNaN", k.desc(true), shape, pi.Class, pi.Text), "")
+		case k.lastCanon != "":
+			c.Violate("invalid-receiver-after-ErrNaN", fmt.Sprintf("%s shape %s: after the ErrNaN panic the receiver is %s: %s", k.desc(true), shape, got, k.lastCanon), "")
+		default:
+			c.Count("receivers_valid_after_ErrNaN", 1)
 		}
 		return
 	}
